@@ -179,6 +179,10 @@ class Sym:
             for d in s['decls']:
                 if d.get('init') is not None:
                     σ[d['n']] = self.ev(d['init'], σ)
+                    for x in F.walk(d['init']):
+                        if x['k'] == 'CallExpr':
+                            self.calls.append((x, dict(σ)))
+                            self.kill_addr_args(x, σ)
             return [σ]
         return [σ]
 
